@@ -722,6 +722,8 @@ func runProperty(prop, tier string) int {
 				a, b := engOut[name], nat[name]
 				if strings.Join(a, "\x00") == strings.Join(b, "\x00") && len(a) > 0 {
 					validated += len(a)
+				} else if len(a) > 0 && strings.HasPrefix(a[len(a)-1], "<status=unsupported") {
+					inconclusive = append(inconclusive, fmt.Sprintf("selftest %s: %s", name, a[len(a)-1]))
 				} else {
 					mismatch = append(mismatch, fmt.Sprintf("selftest %s: engine and native outputs differ", name))
 					fmt.Printf("SELFTEST-MISMATCH %s\n engine: %q\n native: %q\n", name, a, b)
@@ -765,6 +767,9 @@ func runProperty(prop, tier string) int {
 		for k, n := range eng.unknowns {
 			inconclusive = append(inconclusive, fmt.Sprintf("solver answered unknown %d times for: %s", n, k))
 		}
+	}
+	for _, d := range eng.crossDisagree {
+		mismatch = append(mismatch, "solver disagreement: "+d)
 	}
 	for k, n := range eng.solverErrs {
 		inconclusive = append(inconclusive, fmt.Sprintf("solver error (%d times): %s", n, k))
@@ -926,7 +931,8 @@ func runProperty(prop, tier string) int {
 		"functions_encoded":             sortedKeys(rs.fns),
 		"queries":                       map[string]int{"sat": rs.sat, "unsat": rs.unsat, "unknown": rs.unk},
 		"solver_s":                      rs.solverS,
-		"solvers":                       []string{"z3 4.8.12 (z3 -in, push/pop)"},
+		"solvers":                       []string{"z3 4.8.12 (z3 -in, push/pop; SAT pipeline for large pure bit-vector queries)", "cvc5 1.0 and z3 5.1.0 (one-shot cross-check of a sample of assertion queries)"},
+		"cross_checked":                 map[string]interface{}{"assertion_queries": eng.assertQueries, "re_run_on_other_solvers": eng.crossRuns, "answered": eng.crossAnswered, "disagreements": eng.crossDisagree},
 		"models_invoked":                sortedKeys(rs.models),
 		"native_calls":                  sortedKeys(rs.natives),
 		"stubs_invoked":                 sortedKeys(rs.stubs),
